@@ -989,14 +989,16 @@ def run(ctx):
         "are covered by the watchdog search only",
     ]
     ctx.refuted += ["C15_cel_iter_terminates_refuted"]
-    ctx.partial += ["C15_guards_sufficient_circle_partial", "C15_guards_sufficient_cylinder_axial_partial"]
+    ctx.partial += ["C15_guards_sufficient_circle_partial", "C15_guards_sufficient_cylinder_axial_partial",
+                    "C15_guards_sufficient_cuboid_partial"]
     ok = ctx.regen(["GenLoop"])
     built = ctx.build_props() and ok
+    built_g = ctx.build_props("Props/C15G.v")      # guards on models of other properties (CoreModel, GenCuboid)
     if built:
         okp, out = ctx.coq_eval("c15_assum", "From MV Require Import Props.C15.\nPrint Assumptions C15_cel_iter_terminates_refuted.\n")
         ctx.extra["refuted_theorem_assumptions"] = out[-1800:] if okp else "could not be printed: " + out[-500:]
     if ctx.tier == "thorough" and built:
         ctx.coqchk("MV.Props.C15")
     run_guarded(ctx, lambda: correspondence(ctx, built), "C15 correspondence")
-    big = bool(ctx.broken)
+    big = bool(ctx.broken) or not built_g
     run_guarded(ctx, lambda: search(ctx, big), "C15 search")
